@@ -228,6 +228,7 @@ func (enc encoder) AppendEdges(edges []edge, from int) []edge {
 		return edges
 	}
 	cmds := enc[from:]
+	maxStack := enc.stackLimit()
 
 	switch cmds[0].Op {
 	case OpLineTo:
@@ -444,6 +445,23 @@ func (enc encoder) AppendEdges(edges []edge, from int) []edge {
 	return edges
 }
 
+// stackLimit returns the number of operands which can be used for a single
+// operator.  Arguments which are encoded as a sum ("a b add", see
+// encodeNumber) temporarily need one extra stack entry.
+func (enc encoder) stackLimit() int {
+	for _, cmd := range enc {
+		if cmd.Op == OpHintMask || cmd.Op == OpCntrMask {
+			continue
+		}
+		for _, arg := range cmd.Args {
+			if len(arg.Code) > 5 {
+				return maxStack - 1
+			}
+		}
+	}
+	return maxStack
+}
+
 func (enc encoder) To(_ int, e edge) int {
 	return e.to
 }
@@ -492,6 +510,21 @@ func encodeNumber(x float64) encodedNumber {
 
 	// TODO(voss): consider using t2dup here.
 	// TODO(voss): also consider fractions of two one-byte integers?
+
+	if math.Abs(x) >= 32768 {
+		// Type 2 numbers are 16.16 fixed point values: differences between
+		// two coordinates in [-32000, 32000] may be out of range and are
+		// written as a sum of two numbers.
+		a := encodeNumber(math.Round(x / 2))
+		b := encodeNumber(x - a.Val)
+		code = append(code, a.Code...)
+		code = append(code, b.Code...)
+		code = append(code, t2add.Bytes()...)
+		return encodedNumber{
+			Val:  a.Val + b.Val,
+			Code: code,
+		}
+	}
 
 	x16 := funit.Int16(x)
 	if math.Abs(float64(x16)-x) <= 0.5/65536 {
